@@ -3,7 +3,7 @@
 import json, sys
 pid = sys.argv[1]
 wt = sys.argv[2] if len(sys.argv) > 2 else f'/tmp/seed_{pid}'
-round2 = len(sys.argv) > 3 and sys.argv[3] in ('round2', 'round3', 'round4')
+round2 = len(sys.argv) > 3 and sys.argv[3] in ('round2', 'round3', 'round4', 'round5')
 N = 'TWO' if round2 else 'THREE'
 nk = 2 if round2 else 3
 known = ''
